@@ -13,14 +13,19 @@ ENUM_SHAPES = [(2, 10), (2, 11), (2, 12), (3, 7), (4, 5), (4, 6), (5, 5), (6, 4)
 OTHER_SHAPES = [(2, 10), (2, 11), (2, 12), (2, 13), (3, 7), (3, 8), (4, 5), (4, 6), (5, 5), (5, 6), (6, 5), (7, 4), (8, 4), (9, 4), (11, 4), (16, 3), (17, 3), (64, 2), (70, 2), (3, 9), (2, 14)]
 
 
-def draw_game(st):
+def draw_game(st, like=None):
     """A game whose classical_value takes the pool branch.  Returns
-    (prob_mat, pred_mat, meta)."""
-    eo, ei = ENUM_SHAPES[st.draw(len(ENUM_SHAPES))]
-    s_enum = eo**ei
-    alice_enumerated = bool(st.draw(2))
-    cands = [(o, i) for (o, i) in OTHER_SHAPES if (o**i > s_enum if alice_enumerated else o**i >= s_enum) and o * i * eo * ei <= 6000]
-    oo, oi = cands[st.draw(len(cands))]
+    (prob_mat, pred_mat, meta).  With `like` (the meta of an earlier game) the new
+    game has the same shape and different contents."""
+    if like is not None:
+        eo, ei, oo, oi, alice_enumerated = like["_shape_key"]
+        s_enum = eo**ei
+    else:
+        eo, ei = ENUM_SHAPES[st.draw(len(ENUM_SHAPES))]
+        s_enum = eo**ei
+        alice_enumerated = bool(st.draw(2))
+        cands = [(o, i) for (o, i) in OTHER_SHAPES if (o**i > s_enum if alice_enumerated else o**i >= s_enum) and o * i * eo * ei <= 6000]
+        oo, oi = cands[st.draw(len(cands))]
     if alice_enumerated:
         a_out, a_in, b_out, b_in = eo, ei, oo, oi
     else:
@@ -83,7 +88,7 @@ def draw_game(st):
             if prob.sum() == 0:
                 prob[0, 0] = 1.0
         prob = prob / prob.sum()
-    meta = {"shape": list(shape), "pred_kind": pk, "prob_kind": qk, "enumerated": "alice" if alice_enumerated else "bob", "strategies": s_enum}
+    meta = {"shape": list(shape), "pred_kind": pk, "prob_kind": qk, "enumerated": "alice" if alice_enumerated else "bob", "strategies": s_enum, "_shape_key": [eo, ei, oo, oi, alice_enumerated]}
     if planted is not None:
         meta["planted"] = planted
     return prob, pred, meta
@@ -128,3 +133,33 @@ def pool_reach(sim, res):
     if dup:
         raise AssertionError("SimPool executed a task %d times" % sim.tasks_run[dup[0]])
     return entered and ((len(sim.workers_used) >= 2 and sim.chunks >= 2) or sim.max_workers in (1, 61))
+
+
+class isolated_module_state:
+    """Whatever a run (or a mutant under test) leaves in the module-level / class-level data of the
+    watched modules is undone when the run ends, so that runs executed by the same worker process do
+    not influence each other (one seed = one exactly repeatable execution)."""
+
+    def __init__(self, modules, classes):
+        self.probe = PoolSim.__new__(PoolSim)
+        self.probe.watch_modules, self.probe.watch_classes = list(modules), list(classes)
+
+    def __enter__(self):
+        self.before = {}
+        for key, obj in self.probe._targets():
+            self.before[key] = {k: getattr(obj, k) for k in PoolSim._data_names(obj)}
+        self.copy = self.probe.snapshot()
+        return self
+
+    def __exit__(self, *a):
+        for key, obj in self.probe._targets():
+            was = self.before[key]
+            for k in list(PoolSim._data_names(obj)):
+                if k not in was:
+                    try:
+                        delattr(obj, k)
+                    except Exception:
+                        pass
+            for k in was:
+                # prefer the deep copy taken at entry: in-place mutation of a module-level container is undone too
+                setattr(obj, k, self.copy.get(key, {}).get(k, was[k]))
